@@ -149,6 +149,9 @@ macro_rules! harness_item {
     (@acc [$($a:tt)*] [boxed, $($r:ident,)*] fn $name:ident() $body:block) => {
         $crate::harness_item!{ @acc [$($a)* #[cfg_attr(kani, kani::stub(std::vec::Vec::into_boxed_slice, crate::stubs::into_boxed_slice))]] [$($r,)*] fn $name() $body }
     };
+    (@acc [$($a:tt)*] [insrem, $($r:ident,)*] fn $name:ident() $body:block) => {
+        $crate::harness_item!{ @acc [$($a)* #[cfg_attr(kani, kani::stub(std::vec::Vec::insert, crate::stubs::insert))] #[cfg_attr(kani, kani::stub(std::vec::Vec::remove, crate::stubs::remove))]] [$($r,)*] fn $name() $body }
+    };
     (@acc [$($a:tt)*] [tovec, $($r:ident,)*] fn $name:ident() $body:block) => {
         $crate::harness_item!{ @acc [$($a)* #[cfg_attr(kani, kani::stub(<[unic_langid_impl::subtags::Variant]>::to_vec, crate::stubs::to_vec))]] [$($r,)*] fn $name() $body }
     };
